@@ -11,6 +11,8 @@ type Writer struct {
 	links     []uint64
 	linked    uint64
 	receives  [][]*Packet
+	writes    []uint64
+	written   uint64
 	in        chan *Packet
 	out       chan *Packet
 	done      bool
@@ -168,6 +170,7 @@ func (w *Writer) Unlink(reader *Reader) bool {
 				pck := joinAccepted(w.receives[0])
 
 				w.receives = w.receives[1:]
+				w.writes = w.writes[1:]
 
 				w.inbounds.Handle(pck)
 				w.in <- pck
@@ -196,7 +199,7 @@ func (w *Writer) Write(pck *Packet) int {
 	count := 0
 	receives := make([]*Packet, len(w.readers))
 	for i, r := range w.readers {
-		if r.write(New(pck.Payload()), w, w.links[i]) {
+		if r.write(New(pck.Payload()), w, w.links[i], w.written) {
 			count++
 		} else {
 			receives[i] = refused
@@ -205,6 +208,8 @@ func (w *Writer) Write(pck *Packet) int {
 
 	if count > 0 {
 		w.receives = append(w.receives, receives)
+		w.writes = append(w.writes, w.written)
+		w.written++
 	}
 
 	return count
@@ -236,15 +241,19 @@ func (w *Writer) Close() {
 	w.readers = nil
 	w.links = nil
 	w.receives = nil
+	w.writes = nil
 	w.inbounds = nil
 	w.outbounds = nil
 }
 
-// receive takes the response of a reader to a request that was written while the reader's link
-// had the given generation. A response to a request of a link that has since been removed by
-// Unlink is ignored: its slot was deleted together with the link and must not be taken for the
-// response to a request written after the reader was linked again.
-func (w *Writer) receive(pck *Packet, reader *Reader, link uint64) bool {
+// receive takes the response of a reader to the request of the given write, which was written
+// while the reader's link had the given generation. A response to a request of a link that has
+// since been removed by Unlink is ignored: its slot was deleted together with the link and must
+// not be taken for the response to a request written after the reader was linked again. The
+// response is credited to the row of its own write, never to another one: responses of one reader
+// may arrive in any order (Reader.Receive hands its response over after releasing the reader's
+// lock, so the drop notifications of a concurrent Reader.Close can overtake it).
+func (w *Writer) receive(pck *Packet, reader *Reader, link uint64, write uint64) bool {
 	defer verifReceive(w, reader, pck, link)()
 	w.mu.Lock()
 	defer w.mu.Unlock()
@@ -258,7 +267,7 @@ func (w *Writer) receive(pck *Packet, reader *Reader, link uint64) bool {
 		return false
 	}
 
-	head := w.indexOfHead(index)
+	head := w.indexOfHead(index, write)
 	if head < 0 {
 		return false
 	}
@@ -271,6 +280,7 @@ func (w *Writer) receive(pck *Packet, reader *Reader, link uint64) bool {
 			pck := joinAccepted(w.receives[0])
 
 			w.receives = w.receives[1:]
+			w.writes = w.writes[1:]
 
 			w.inbounds.Handle(pck)
 			w.in <- pck
@@ -305,9 +315,9 @@ func (w *Writer) indexOfReader(reader *Reader) int {
 	return -1
 }
 
-func (w *Writer) indexOfHead(index int) int {
+func (w *Writer) indexOfHead(index int, write uint64) int {
 	for i, receives := range w.receives {
-		if len(receives) <= index {
+		if w.writes[i] != write || len(receives) <= index {
 			continue
 		}
 		if receives[index] == nil {
